@@ -95,6 +95,10 @@ impl Scenario for History {
                     if long {
                         c.len = c.len.min(3000);
                     }
+                    if rng.chance(3) {
+                        // contents above 64 KiB (two of them, sharing length and prefix)
+                        c = Cont { k: 2, seed: rng.below(2) as u32, len: 65_537 + 4000 * (rng.below(2) as u32) };
+                    }
                     Op::Add { id, c }
                 }
                 40..=54 => Op::Remove { id: pick_id(rng, &known) },
@@ -241,12 +245,16 @@ fn run_history(prop: &str, c: &HistCase, enforce: bool, ctx: &mut Ctx) -> V<Vec<
             Op::Lookup { id } => {
                 if check_model {
                     check_lookup(p, &mut st, *id, c.face, i)?;
+                } else {
+                    // the lookup is part of the history whatever the oracle is
+                    let _ = sut::get(&mut st.pm, *id, c.face)?;
                 }
             }
             Op::LookupXyz { id } => {
                 if check_model {
                     if let Some((z, x, y)) = spec::id_to_zxy(*id) {
                         let got = sut::get_xyz(&mut st.pm, x, y, z, c.face)?;
+                        let _ = &got;
                         let want = st.model.get(id);
                         ensure!(matches!(&got, Ok(g) if g.as_ref() == want), format!("{p}:lookup-xyz"), "op {i}: get_tile({x},{y},{z}) (id {id}) returned {:?}, model has {:?}", got.map(|o| o.map(|b| b.len())), want.map(Vec::len));
                     }
